@@ -656,7 +656,10 @@ namespace via
         for (auto& elem : connection_data)
           elem.second->disconnect();
 #else
-        for (auto& elem : http_connections_)
+        // Note: iterate over a copy, since disconnecting a connection may
+        // erase it from http_connections_
+        connection_collection connections(http_connections_);
+        for (auto& elem : connections)
           elem.second->disconnect();
 #endif
       }
